@@ -56,6 +56,10 @@ PYFORMS = {
     # pipe alternative or following text brings further quotes)
     "esc_quote": "(%s, 'it\\'s')[0]",
     "esc_quote2": "('a\\'b' and %s)",
+    # an expression continued over two lines (what follows it in the
+    # source stands on a later line than a count of tokens would say)
+    "multiline": "(%s,\n 0)[0]",
+    "multiline2": "(0,\n\n  %s)[1]",
     # attribute access on an object that has no such attribute and whose
     # __getitem__ fails with something that is *not* a lookup error: the
     # expression raises RuntimeError('bad-item') before the probe is reached
@@ -63,6 +67,12 @@ PYFORMS = {
     "bad_item": "(bad.attr, %s)[1]",
 }
 RAISING_FORMS = {"bad_item": (RuntimeError, ("bad-item",))}
+# bare names under exists: (name -> does evaluating it succeed?)
+BARE_NAMES = ["nothing", "template", "macros", "a", "kw", "len", "dd",
+              "nosuch_name", "nosuch2"]
+BARE_NAME_EXISTS = {"nothing": 1, "template": 1, "macros": 1, "a": 1,
+                    "kw": 1, "len": 1, "dd": 1, "nosuch_name": 0,
+                    "nosuch2": 0}
 
 
 def _ident(v):
@@ -264,6 +274,9 @@ class Gen:
                                                self.probe(role, True)]} \
                     if ch.coin(0.6) else self.probe(role, True)
                 alts[-1] = {"k": ch.pick(["not", "exists"]), "e": inner}
+                if alts[-1]["k"] == "exists" and self.o.get("bare_names") \
+                        and ch.coin(self.o["bare_names"]):
+                    alts[-1]["e"] = {"k": "name", "name": ch.pick(BARE_NAMES)}
             return {"k": "pipe", "alts": alts}
         if allow_prefix and r < self.o["pipes"] + self.o["prefixes"]:
             t = ch.choose(5)
@@ -272,6 +285,10 @@ class Gen:
             if t == 1 and role in ("cond", "omit", "define"):
                 inner = self.probe(role) if ch.coin(0.6) else \
                     {"k": "pipe", "alts": [self.probe(role), self.probe(role)]}
+                if self.o.get("bare_names") and ch.coin(self.o["bare_names"]):
+                    # exists: over one bare name - a template builtin, a
+                    # render argument, a python builtin, an unknown name
+                    inner = {"k": "name", "name": ch.pick(BARE_NAMES)}
                 return {"k": "exists", "e": inner}
             if t == 2 and role in ("content", "replace", "attr", "define",
                                    "fallback"):
@@ -663,6 +680,8 @@ class Ser:
             self.occ[idx]["oid"] = e.get("oid")
         elif k == "lit":
             self.w(e["src"])
+        elif k == "name":
+            self.w(e["name"])
         elif k == "marker":
             self.w("'%s'" % e["s"])
         elif k == "load":
